@@ -16,6 +16,70 @@ package agentstorage
 //@ lockinv piece.RWMutex self p guards status
 //@   invariant known_status: p.status == _empty || p.status == _complete || p.status == _dirty
 
+// ---- per-piece write token (property C03) -----------------------------------------------------
+//
+// A piece moves empty -> dirty (tryMarkDirty grants the write token to the caller), dirty -> empty
+// (markEmpty: the holder gives up) or dirty -> complete (markComplete: the holder verified the
+// bytes). `mine` is thread-local ghost state: the calling thread holds the token of this piece.
+// Only the holder may call markEmpty / markComplete (call-site obligations), so a piece that some
+// thread is writing is never released or completed by another one.
+//@ ghost field piece.mine bool
+
+//@ func piece.complete
+//@   requires p != nil
+//@   nopanic
+//@   ensures result ==> p.status == _complete
+
+//@ func piece.dirty
+//@   requires p != nil
+//@   nopanic
+
+//@ func piece.tryMarkDirty
+//@   requires p != nil
+//@   nopanic
+//@   modifies p.status, p.mine
+//@   ghost_set p.mine = true if !dirty && !complete
+//@   ensures granted: !dirty && !complete ==> old(p.status) == _empty && p.status == _dirty && p.mine
+//@   ensures busy: dirty ==> !complete && old(p.status) == _dirty && p.status == _dirty && p.mine == old(p.mine)
+//@   ensures done: complete ==> !dirty && old(p.status) == _complete && p.status == _complete && p.mine == old(p.mine)
+
+//@ func piece.markEmpty
+//@   requires p != nil
+//@   requires holds_token: p.mine
+//@   nopanic
+//@   modifies p.status, p.mine
+//@   ghost_set p.mine = false
+//@   ensures p.status == _empty && !p.mine
+
+//@ func piece.markComplete
+//@   requires p != nil
+//@   requires holds_token: p.mine
+//@   nopanic
+//@   modifies p.status, p.mine
+//@   ghost_set p.mine = false
+//@   ensures p.status == _complete && !p.mine
+
+// markPieceComplete: only the token holder, only for a piece inside the torrent; it records the
+// piece on disk, completes it and counts it exactly once.
+//@ func Torrent.markPieceComplete
+//@   requires twf(t) && 0 <= pi && pi < len(t.pieces)
+//@   requires holds_token: t.pieces[pi].mine
+//@   nopanic
+//@   modifies t.pieces[pi].status, t.pieces[pi].mine, t.numComplete.val
+//@   ensures counted: result == nil ==> t.pieces[pi].status == _complete && !t.pieces[pi].mine && t.numComplete.val == old(t.numComplete.val) + 1
+//@   ensures not_counted: result != nil ==> t.numComplete.val == old(t.numComplete.val) && t.pieces[pi].mine && t.pieces[pi].status == old(t.pieces[pi].status)
+
+// writePiece: the piece is completed only after the checksum of what was copied equals the
+// metainfo's checksum of that piece.
+//@ func Torrent.writePiece
+//@   requires twf(t) && src != nil && 0 <= pi && pi < len(t.pieces)
+//@   requires holds_token: t.pieces[pi].mine
+//@   nopanic
+//@   modifies t.pieces[pi].status, t.pieces[pi].mine, t.numComplete.val
+//@   assert checksum_matches: at Torrent.markPieceComplete#0 :: crcstream(as(io.Writer, h).wsrc, as(io.Writer, h).wlo, as(io.Writer, h).whi - as(io.Writer, h).wlo) == t.metaInfo.info.PieceSums[pi]
+//@   ensures done: result == nil ==> t.pieces[pi].status == _complete && !t.pieces[pi].mine && t.numComplete.val == old(t.numComplete.val) + 1
+//@   ensures failed: result != nil ==> t.pieces[pi].mine && t.numComplete.val == old(t.numComplete.val) && t.pieces[pi].status == old(t.pieces[pi].status)
+
 //@ func Torrent.NumPieces
 //@   requires t != nil
 //@   nopanic
@@ -46,13 +110,46 @@ package agentstorage
 //@   requires twf(t)
 //@   nopanic
 //@   assert index_in_torrent: at piecereader.NewFileReader#0 :: 0 <= pi && pi < len(t.pieces)
+//@   assert only_complete_pieces: at piecereader.NewFileReader#0 :: t.pieces[pi].status == _complete
 //@   ensures rejected: (pi < 0 || pi >= len(t.pieces)) ==> result1 != nil
 
 // WritePiece: an index outside the torrent or a payload whose length is not the piece's length is
 // rejected before anything is written.
 //@ func Torrent.WritePiece
 //@   requires twf(t) && src != nil
+//@   requires no_token_held: forall i int :: 0 <= i && i < len(t.pieces) ==> !t.pieces[i].mine
 //@   nopanic
-//@   modifies *
+//@   modifies every piece.status, every piece.mine, t.numComplete.val, t.committed.val
+//@   assert commit_after_all_pieces: at caDownloadStore.MoveDownloadFileToCache#0 :: t.numComplete.val == len(t.pieces)
+//@   ensures token_not_leaked: 0 <= pi && pi < len(t.pieces) ==> t.pieces[pi].mine == old(t.pieces[pi].mine)
+//@   ensures complete_only_when_all: t.committed.val ==> old(t.committed.val) || t.numComplete.val == len(t.pieces)
+//@   ensures success_completes_piece: result == nil ==> t.pieces[pi].status == _complete
+//@   ensures counts_own_piece_only: t.numComplete.val == old(t.numComplete.val) || (t.numComplete.val == old(t.numComplete.val) + 1 && t.pieces[pi].status == _complete)
 //@   assert write_in_torrent: at Torrent.writePiece#0 :: 0 <= pi && pi < len(t.pieces) && src.length == plen(t.metaInfo.info.Length, t.metaInfo.info.PieceLength, pi)
 //@   ensures rejected: (pi < 0 || pi >= len(t.pieces)) ==> result != nil
+
+// ---- what the torrent reports (property C03) -----------------------------------------------------
+
+// A restored torrent is committed to the cache only if every restored piece is complete.
+//@ func NewTorrent
+//@   requires cads != nil && mi != nil
+//@   assert commit_needs_all_pieces: at caDownloadStore.MoveDownloadFileToCache#0 :: numComplete == len(pieces)
+
+//@ func Torrent.Complete
+//@   requires t != nil && t.committed != nil
+//@   nopanic
+//@   ensures result == t.committed.val
+
+// The reported bitfield has one bit per piece and a bit is set only for a piece seen complete.
+//@ func Torrent.Bitfield
+//@   requires twf(t) && len(t.pieces) <= 1099511627776
+//@   nopanic
+//@   assert only_complete_pieces: at BitSet.Set#0 :: 0 <= i && i < len(t.pieces) && t.pieces[i].status == _complete
+//@   ensures result != nil && result.len == len(t.pieces)
+//@   loop 0 invariant idx: 0 - 1 <= rangeindex && rangeindex < len(t.pieces) && bitfield != nil && bitfield.len == len(t.pieces)
+
+// Progress never exceeds the blob length and counts whole pieces only.
+//@ func Torrent.BytesDownloaded
+//@   requires twf(t)
+//@   nopanic
+//@   ensures result <= t.metaInfo.info.Length
